@@ -330,13 +330,19 @@ def execute(sim, plan):
             return
         if not related and start is None:
             fail("plan_raises", "unrelated-accepted", f"a plan was produced for unrelated {stop} and {onto}")
-        _, _, pb = compute("B")
+        _, _, pb2 = compute("B")
+        # the plan executed second: the same plan with other new ids
+        gen_b = make_gen("B")
+        a2b = {v[0]: gen_b(k, v[1]) for k, v in pa.items()}
+        pb = {k: (a2b[v[0]], tuple(a2b.get(p, p) for p in v[1])) for k, v in pa.items()}
     check_plan(sim, fail, mh, pa, D, stop, onto, start, skip, "simple")
-    # same plan twice (modulo the generated ids)
-    if plan["revid_gen"] == "suffix":
-        ren = {v[0]: pb[k][0] for k, v in pa.items() if k in pb}
-        if set(pa) != set(pb) or any(tuple(ren.get(p, p) for p in pa[k][1]) != pb[k][1] for k in pa):
-            fail("plan", "not-deterministic", f"two computations of the plan differ: {pa} vs {pb}")
+    # computed twice: the same plan modulo the generated ids and the (unspecified) entry order.
+    # (With an explicit start the slice of the arbitrary topological order decides which
+    # unrelated revisions are included, so two computations may legitimately differ.)
+    if plan["revid_gen"] == "suffix" and start is None and pb2 != pb:
+        fail("plan", "not-deterministic", f"two computations of the plan differ: {pa} vs {pb2}")
+    if pb2 is not None and set(pb2) != set(pa):
+        sim.probe("start_slice_depends_on_topo_tiebreak")
     merges_in_plan = sum(1 for k in pa if len(mh.revs[k.decode()]["parents"]) > 1)
     sim.probe("plan_entries", len(pa))
     if merges_in_plan:
